@@ -87,6 +87,9 @@ def corr_ops(ctx):
         ty = rnd.choice(G.TYPES)
         name = rnd.choice(['a', 'web-1', 'tpl@', 'tpl@inst', 'x.y', '@', 'a@@b', '.x', 'é', '%i']) + '.' + ty
         ops.append(f'convert\t{rnd.choice("01")}\t0\t{hx("/q/" + name)}\t{hx(adv_unit(rnd, ctx.tables, ty))}')
+    # decision logic over combinations of keys: every subset of the keys each handler function looks at (groups read off the source)
+    for ty, text, fn in G.group_units(rnd, ctx.tables, core.REPO, reps=2 if ctx.thorough else 1):
+        ops.append(f'convert\t{rnd.choice("01")}\t0\t{hx("/q/g." + ty)}\t{hx(text)}')
     for _ in range(n // 4):
         k = rnd.randint(2, 5)
         files = []
